@@ -25,6 +25,11 @@ class CallMixin:
         """A parse tree handed to a callee keeps what this path knows about its number of children
         (``len(tree.children) == 2`` tested before calling a helper with ``tree``)."""
         node = strip_cast(node)
+        if isinstance(node, ast.Name) and v.kinds is not None and v.kinds <= {"Token"}:
+            # a token whose .type this path has tested keeps that knowledge in the callee
+            tv = self.env.get("$" + node.id + ".type")
+            if tv is not None and tv.strs:
+                return Val(kinds=v.kinds, strs=tv.strs if v.strs is None else (v.strs & tv.strs or tv.strs), lit=v.lit, token=v.token)
         if isinstance(node, ast.Name) and v.rules is not None and v.kinds is None:
             ck = self.env.get(node.id + "#count")
             if ck is not None and ck.strs is not None and not any(x.startswith("=") for x in (v.strs or ())):
